@@ -91,3 +91,47 @@ func init() {
 	addMutant(Mutant{Prop: "C13", Name: "compilerhash-dev-only", File: "cmd/internal/flags/flags.go",
 		Old: "\tconf.CompilerHash = compilerhash.Value()\n\tconf.Tags = Tags", New: "\tif buildenv.Dev {\n\t\tconf.CompilerHash = compilerhash.Value()\n\t}\n\tconf.Tags = Tags", Expect: "R13.10"})
 }
+
+// checkStoreAfterOutputs (R13.11): what is stored in the cache is what a later cache hit gets back.  Every step
+// that completes a package's recorded outputs (link arguments) runs before saveToCache.
+func checkStoreAfterOutputs(c *Ctx, bp *packages.Package) {
+	c.Rule("R13.11", "a package is stored in the cache only after its recorded outputs are complete: no step that extends the link arguments follows saveToCache", 1)
+	fd := findFunc(bp, "buildAllPkgs")
+	if fd == nil {
+		c.Undecided("R13.11", "build.buildAllPkgs", 0, "function not found")
+		return
+	}
+	c.nfuncs++
+	info := bp.TypesInfo
+	n := 0
+	ast.Inspect(fd.Body, func(x ast.Node) bool {
+		blk, ok := x.(*ast.BlockStmt)
+		if !ok {
+			return true
+		}
+		save, ext := -1, -1
+		for i, st := range blk.List {
+			if containsCallTo(info, st, "internal/build.context.saveToCache") && save < 0 {
+				save = i
+			}
+			if containsCallTo(info, st, "internal/build.appendExternalLinkArgs") {
+				ext = i
+			}
+		}
+		if save >= 0 && ext >= 0 && save != ext {
+			n++
+			c.Check(ext < save, "R13.11", fmt.Sprintf("build.buildAllPkgs stores after the link arguments are complete #%d", n), blk.List[save].Pos(), "appendExternalLinkArgs precedes saveToCache",
+				"the cache entry is written before the external link arguments are appended: a later cache hit links the program without the package's -l/-L arguments")
+		}
+		return true
+	})
+	if n == 0 {
+		c.Undecided("R13.11", "build.buildAllPkgs store order", fd.Pos(), "saveToCache and appendExternalLinkArgs not found in one block")
+	}
+}
+
+func init() {
+	addMutant(Mutant{Prop: "C13", Name: "store-before-extern-linkargs", File: "internal/build/build.go",
+		Old: "\t\t\t\t\tif kind == cl.PkgLinkExtern {\n\t\t\t\t\t\tappendExternalLinkArgs(ctx, aPkg, param)\n\t\t\t\t\t}\n\t\t\t\t\tif err := ctx.saveToCache(aPkg); err != nil && verbose {\n\t\t\t\t\t\tfmt.Fprintf(os.Stderr, \"warning: failed to save cache for %s: %v\\n\", pkg.PkgPath, err)\n\t\t\t\t\t}",
+		New: "\t\t\t\t\tif err := ctx.saveToCache(aPkg); err != nil && verbose {\n\t\t\t\t\t\tfmt.Fprintf(os.Stderr, \"warning: failed to save cache for %s: %v\\n\", pkg.PkgPath, err)\n\t\t\t\t\t}\n\t\t\t\t\tif kind == cl.PkgLinkExtern {\n\t\t\t\t\t\tappendExternalLinkArgs(ctx, aPkg, param)\n\t\t\t\t\t}", Expect: "R13.11"})
+}
